@@ -31,6 +31,14 @@ def gen_sched(rng, fine_pct=30, jitter_pct=30):
         sc["line_gap"] = rng.choice([10, 25, 60, 150])
     if rng.randrange(100) < jitter_pct:
         sc["sleep_jitter_pct"] = rng.choice([10, 50, 200])
+    if rng.randrange(100) < 20:
+        # starve one kind of thread: it only runs when nothing else can (slow / deprioritised thread)
+        sc["low_prio"] = [rng.choice(["request", "assoc", "dul", "user", "server", "assoc:acc", "dul:acc", "assoc:req", "dul:req"])]
+        sc["low_prio_pct"] = rng.choice([80, 95, 100])
+    if rng.randrange(100) < 15:
+        # a thread that has just started another thread is descheduled for a while (the child gets ahead)
+        sc["spawn_stall_pct"] = rng.choice([30, 100])
+        sc["spawn_stall"] = rng.choice([0.002, 0.02])
     return sc
 
 
